@@ -375,7 +375,8 @@ func runWrite(c WriteCase) *pbt.Violation {
 		s.Call("CtrlKickSession", func() {
 			kr = s.SM.CtrlKickSession(base.ApiCtrlKickSessionReq{StreamName: c.Name, SessionId: resp.Data.SessionId})
 		})
-		deadline := time.Now().Add(lalclient.IdleTimeout)
+		// (not judged here - the kick sub-property does that; Close disposes whatever is left)
+		deadline := time.Now().Add(3 * time.Second)
 		for kr.ErrorCode == base.ErrorCodeSucc && pubID(s, c.Name) != "" && time.Now().Before(deadline) {
 			time.Sleep(2 * time.Millisecond)
 		}
